@@ -16,6 +16,8 @@ pub mod c26;
 pub mod c27;
 pub mod c29;
 pub mod c30;
+pub mod c32;
+pub mod c33;
 pub mod c35;
 pub mod c36;
 pub mod c37;
@@ -46,6 +48,8 @@ pub fn run(id: &str, run: &mut Run) {
         "C36" => c36::run(run),
         "C38" => c38::run(run),
         "C39" => c39::run(run),
+        "C33" => c33::run(run),
+        "C32" => c32::run(run),
         _ => machinery_failure(&format!("no check for property {}", id)),
     }
 }
@@ -73,6 +77,8 @@ pub fn replay(id: &str, case: &Value, run: &mut Run) {
         "C36" => c36::replay(case, run),
         "C38" => c38::replay(case, run),
         "C39" => c39::replay(case, run),
+        "C33" => c33::replay(case, run),
+        "C32" => c32::replay(case, run),
         _ => machinery_failure(&format!("no replay for property {}", id)),
     }
 }
@@ -87,6 +93,7 @@ pub fn child(id: &str, args: &[String]) {
         "C30" => c30::child(args),
         "C24" => c24::child(args),
         "C29" => c29::child(args),
+        "C32" => c32::child(args),
         _ => machinery_failure(&format!("no child mode for property {}", id)),
     }
 }
